@@ -4,6 +4,7 @@ import os
 import re
 
 import hirflow
+from facts import find_hir, pat_paths
 
 from hireval import Evaluator, closure_of, mk_bool, sym, value
 
@@ -260,6 +261,7 @@ def run(F, rep, tier):
     number_order_rule(F, rep)
     # ---------------- R09.9
     mirror_rule(F, rep)
+    unary_dispatch_rule(F, rep)
 
 
 def between_form(F, rep, rid, k):
@@ -813,3 +815,48 @@ def mirror_rule(F, rep):
         else:
             rep.ok(rid, key, "%d intermediate values per operand, identical up to exchanging the operands" % len(pure[0]))
     rep.floor(rid, "per-operand intermediate values in compare/subtract", n, 2)
+
+
+# ======================================================================================================
+# R09.11: a unary-test item is tested with the comparison of its own operator
+UNARY_VARIANTS = {"UnaryLess": "<", "UnaryLessOrEqual": "<=", "UnaryGreater": ">", "UnaryGreaterOrEqual": ">="}
+
+
+def unary_dispatch_rule(F, rep):
+    """`x in (<= c)`, `x in not(<= c)`, decision-table input entries: wherever the evaluator matches on an item of kind Value::UnaryLess / UnaryLessOrEqual / UnaryGreater /
+    UnaryGreaterOrEqual, the arm of a variant applies the comparison function of *that* operator.  The operator of a comparison function is read off its body (the one
+    order operator all its kind arms apply - the functions R09.5 judges), the operator of a variant is its meaning in the FEEL grammar (unary tests `< e`, `<= e`, ...).
+    An arm of `<=` that calls the `<` function is positive evidence (copy-paste slip; the boundary value is then tested wrongly)."""
+    rid = rep.rule("R09.11", "every arm for a unary-test item (< <= > >=) applies the comparison function of its own operator (positive and negated lists, wherever such items are matched)")
+    fns = {n: h for n, h in F.hir.items() if n.startswith("dmntk_feel_evaluator::") and h.get("kind") in ("fn", "method") and "{closure" not in n}
+    op_of = {}
+    for n, h in fns.items():
+        if len(h.get("params", [])) != 2:
+            continue
+        ops = {x["op"] for x, _ in find_hir(h["body"], lambda x: x.get("k") == "Binary" and x.get("op") in ("<", "<=", ">", ">="))}
+        if len(ops) == 1 and find_hir(h["body"], lambda x: x.get("k") == "Match"):
+            op_of[n] = next(iter(ops))
+    rep.floor(rid, "comparison functions with one order operator", len(op_of), 4)
+    arms = 0
+    for n, h in sorted(fns.items()):
+        if n in op_of:
+            continue
+        for m, _ in find_hir(h["body"], lambda x: x.get("k") == "Match" and x.get("src") == "Normal"):
+            for arm in m["arms"]:
+                vs = {c.split("::")[-1] for c in pat_paths(arm["p"]) if c.startswith("dmntk_feel::values::Value::Unary")}
+                vs &= set(UNARY_VARIANTS)
+                if len(vs) != 1:
+                    continue
+                v = next(iter(vs))
+                called = [c.get("callee") for c, _ in find_hir(arm["b"], lambda x: x.get("k") in ("Call", "MethodCall") and x.get("callee") in op_of)]
+                if not called:
+                    continue
+                arms += 1
+                key = "%s:%s" % (n.split("::")[-1], v)
+                wrong = [c for c in called if op_of[c] != UNARY_VARIANTS[v]]
+                if wrong:
+                    rep.violation(rid, key, "in %s the arm for Value::%s (unary test `%s e`) applies %s, which compares with `%s`: the boundary value is tested with the wrong operator"
+                                  % (n.split("::")[-1], v, UNARY_VARIANTS[v], wrong[0].split("::")[-1], op_of[wrong[0]]), "%s:%s" % (h["file"], arm.get("l")))
+                else:
+                    rep.ok(rid, key, "applies %s (`%s`)" % (called[0].split("::")[-1], UNARY_VARIANTS[v]))
+    rep.floor(rid, "arms for unary-test items", arms, 8)
